@@ -268,7 +268,7 @@ impl ResourceDescription {
             LimitValue::Soft => soft,
             LimitValue::Hard => hard,
             LimitValue::Unlimited => rlimit::INFINITY,
-            LimitValue::Value(v) => v * self.unit.scale(),
+            LimitValue::Value(v) => v.saturating_mul(self.unit.scale()),
             LimitValue::Unset => return Ok(()),
         };
 
